@@ -15,6 +15,7 @@ PARAMS = {  # property -> (quick: len, cuts), (thorough: len, cuts)
     "C02": ((4, 1), (5, 2)),
     "C04": ((4, 0), (5, 0)),
     "C06": ((4, 1), (5, 1)),
+    "C07": ((3, 3), (4, 3)),
     "C08": ((4, 1), (5, 1)),
     "C09": ((3, 1), (4, 2)),
     "C10": ((2, 1), (3, 2)),
@@ -22,6 +23,7 @@ PARAMS = {  # property -> (quick: len, cuts), (thorough: len, cuts)
     "C12": ((4, 1), (5, 2)),
     "C13": ((3, 1), (4, 1)),
     "C14": ((4, 1), (5, 2)),
+    "C16": ((3, 3), (4, 3)),
 }
 
 
@@ -128,13 +130,17 @@ def run(name, repo="/repo", work=None, tier="quick", prop=None, seed=0):
         # a panic of the real crate on some input is itself a robustness violation, but we cannot name the input here
         return res
     res["cases"] = j["cases"]
-    if "selectors" not in j and "encodings" not in j:
+    if "selectors" not in j and "encodings" not in j and not j.get("attr_mode"):
       res["bound"] = f"all strings over the {len(j['alphabet'])}-symbol alphabet {j['alphabet']!r} up to length {j['exhaustive_len']} + {j['seed_documents']} seed documents, every {j['max_cuts']}-cut chunking, 7 handler configurations"
     res["violations"] = [dict(what=v["what"], detail=json.dumps(v)) | v for v in j["violations"]]
     # violations the executor classifies under a known-finding class (reported separately so that they cannot mask others);
     # `check` prints KNOWN-FINDING only if known_findings.json lists a finding identified by that class, otherwise they are
     # ordinary violations
     res["classified"] = {k[len("known_class_"):]: v for k, v in j.items() if k.startswith("known_class_") and v}
+    if j.get("attr_mode"):
+        res["bound"] = f"start tags with up to {j['exhaustive_len']} attributes from {j['alphabet']}, every edit script of up to {j['max_cuts']} operations, reads and re-parsed output against a list model"
+        keep = {"C16": ("attributes()", "get_attribute"), "C07": ("re-parsed", "unedited", "after edits", "rewriter failed")}[prop]
+        j["violations"] = [v for v in j["violations"] if any(k in v["what"] for k in keep)]
     if "encodings" in j:
         res["bound"] = f"{j['encodings']} ASCII-compatible encodings (all of encoding_rs) x all byte strings over {j['alphabet']} up to length {j['exhaustive_len']} as text / attribute value / comment text x every write boundary, 4 texts of 2600 bytes per encoding (beyond the decoder buffer), inserted strings with unmappable characters, meta-charset switch at every cut (reference: encoding_rs one-shot decoder without BOM handling)"
     if "selectors" in j:
